@@ -388,24 +388,23 @@ class Instance(Component):
         flows: list[int] = []
         dists: list[int] = []
         for oline in stream:
-            line = oline.strip()
-            if len(line) <= 0:
-                continue
-            if state == 0:
-                n = check_to_int_range(line, "n", 1, 1_000_000)
-                n2 = n * n
-                state = 1
-            else:
-                row: Iterable[int] = map(_flow_or_dist_to_int, line.split())
-                if state == 1:
-                    flows.extend(row)
+            # the numbers may be wrapped into lines in any way
+            for token in oline.split():
+                if state == 0:
+                    n = check_to_int_range(token, "n", 1, 1_000_000)
+                    n2 = n * n
+                    state = 1
+                elif state == 1:
+                    flows.append(_flow_or_dist_to_int(token))
                     if len(flows) >= n2:
                         state = 2
-                        continue
-                dists.extend(row)
-                if len(dists) >= n2:
-                    state = 3
-                    break
+                else:
+                    dists.append(_flow_or_dist_to_int(token))
+                    if len(dists) >= n2:
+                        state = 3
+                        break
+            if state == 3:
+                break
 
         if (n is None) or (n <= 0):
             raise ValueError(f"Invalid or unspecified size n={n}.")
